@@ -58,6 +58,10 @@ func genTree(t *rapid.T, depth int, label string) *h.Ex {
 	case kind == 10:
 		return &h.Ex{Op: "SHIFT", Off: -int64(rapid.IntRange(1, 3).Draw(t, label+".off")) * 1e9, Args: []*h.Ex{genTree(t, depth-1, label+".sh")}}
 	}
+	if len(label) > 2 && (label[len(label)-2:] == ".l" || label[len(label)-2:] == ".r") {
+		// BOUNDED(...) is not a valid direct operand of a binary operator
+		return h.GenAgg(t, cfg, label)
+	}
 	return &h.Ex{Op: "BOUNDEDTOP", Lo: float64(rapid.IntRange(-3, 3).Draw(t, label+".lo")), Hi: float64(rapid.IntRange(4, 30).Draw(t, label+".hi")), Args: []*h.Ex{h.GenAgg(t, cfg, label+".in")}}
 }
 
